@@ -20,6 +20,7 @@ import (
 	openfgav1 "github.com/openfga/api/proto/openfga/v1"
 
 	"github.com/openfga/openfga/internal/telemetry"
+	"github.com/openfga/openfga/internal/utils/apimethod"
 	"github.com/openfga/openfga/pkg/middleware/validator"
 	serverconfig "github.com/openfga/openfga/pkg/server/config"
 	servererrors "github.com/openfga/openfga/pkg/server/errors"
@@ -556,6 +557,12 @@ func (s *Server) ActionSearch(ctx context.Context, req *authzenv1.ActionSearchRe
 		return nil, err
 	}
 	defer end()
+
+	// Authorize before the model of the store is read: the BatchCheck below authorizes too, but only after
+	// resolveTypesystem has already touched the store.
+	if err := s.checkAuthz(ctx, req.GetStoreId(), apimethod.BatchCheck); err != nil {
+		return nil, err
+	}
 
 	authorizationModelID := getAuthorizationModelIDFromHeader(ctx)
 
